@@ -145,3 +145,70 @@
                 lemma_read_message_is_frame::<SnapshotHeader>(header, vs);
                 assert(message_reader.view() + c.skip(read_len as int) =~= c.skip(vs.len() as int));
             }
+@@ SnapshotWriter::init spec
+    // C01 (S25): a NEW snapshot file holds the framed header and nothing else — whatever a file of that name held before
+    ensures r is Ok ==> r.unwrap().wf() && r.unwrap().file.contents() == pb_frame(hdr_msg(header)),
+@@ SnapshotWriter::init entry
+    broadcast use axiom_hdr_nonempty;
+@@ SnapshotWriter::init before_tail
+    proof { assert(file.contents() =~= pb_frame(hdr_msg(header))); }
+@@ SnapshotWriter::write_record spec
+    requires old(self).wf()
+    // C01: a record handed to the writer is appended as one frame; nothing written before is touched
+    ensures r is Ok ==> final(self).wf() && final(self).file.contents() == old(self).file.contents() + pb_frame(item_msg(*record)),
+        r is Err ==> old(self).file.io_faulty(), final(self).file.io_faulty() == old(self).file.io_faulty(),
+@@ SnapshotWriter::write_record before_tail
+    proof { assert(self.file.contents() =~= old(self).file.contents() + pb_frame(item_msg(*record))); }
+@@ SnapshotWriter::flush spec
+    ensures final(self).file.contents() == old(self).file.contents(), final(self).file.pos() == old(self).file.pos(),
+        final(self).file.io_faulty() == old(self).file.io_faulty(), r is Err ==> old(self).file.io_faulty(),
+@@ SnapshotWriterActor::init chain 1
+    env path: Arc<String>, header: SnapshotHeaderDto
+    returns anyhow::Result<SnapshotWriter>
+@@ SnapshotWriterActor::init subst
+    SnapshotWriter::init(&path, header) => SnapshotWriter::init(path.as_str(), header)
+@@ SnapshotWriterActor::init chain 1 spec
+    ensures r is Ok ==> r.unwrap().wf() && r.unwrap().file.contents() == pb_frame(hdr_msg(header)),
+@@ SnapshotWriterActor::init spec
+    requires old(self).header is Some, old(self).inner_writer is None
+    // C01: the actor starts with an image that holds exactly its header (or it stops)
+    ensures final(self).inner_writer is Some ==> final(self).ready() && final(self).image() == snap_image(old(self).header.unwrap(), Seq::empty()),
+        final(self).path == old(self).path,
+@@ SnapshotWriterActor::init exit
+    proof { assert(frames(Seq::<SnapshotRecordDto>::empty()) =~= Seq::<u8>::empty()); if self.inner_writer is Some { assert(self.image() =~= snap_image(old(self).header.unwrap(), Seq::empty())); } }
+@@ SnapshotWriterActor::write chain 1
+    env path: Arc<String>, header: SnapshotHeaderDto, mut writer: SnapshotWriter, record: SnapshotRecordDto
+    returns anyhow::Result<SnapshotWriter>
+@@ SnapshotWriterActor::write chain 1 spec
+    requires writer.wf()
+    ensures r is Ok ==> r.unwrap().wf() && r.unwrap().file.contents() == writer.file.contents() + pb_frame(item_msg(record)),
+        r is Err ==> writer.file.io_faulty(),
+@@ SnapshotWriterActor::write spec
+    requires old(self).ready()
+    // C01: every record a component sends is appended to the image, in arrival order, unchanged (or the actor stops: I/O fault)
+    ensures final(self).path == old(self).path,
+        final(self).inner_writer is Some ==> final(self).ready() && final(self).image() == old(self).image() + pb_frame(item_msg(record)),
+        final(self).inner_writer is None ==> old(self).inner_writer.unwrap().file.io_faulty(),
+@@ SnapshotWriterActor::flush chain 1
+    env path: Arc<String>, header: SnapshotHeaderDto, mut writer: SnapshotWriter, record: SnapshotRecordDto
+    returns anyhow::Result<SnapshotWriter>
+@@ SnapshotWriterActor::flush chain 1 spec
+    ensures r is Ok ==> r.unwrap().file.contents() == writer.file.contents() && r.unwrap().file.pos() == writer.file.pos(),
+        r is Err ==> writer.file.io_faulty(),
+@@ SnapshotWriterActor::flush spec
+    requires old(self).ready()
+    ensures final(self).path == old(self).path,
+        final(self).inner_writer is Some ==> final(self).ready() && final(self).image() == old(self).image(),
+        final(self).inner_writer is None ==> old(self).inner_writer.unwrap().file.io_faulty(),
+@@ SnapshotWriterActor::handle@Handler<SnapshotWriterRequest> t20_calls write flush
+@@ SnapshotWriterActor::handle@Handler<SnapshotWriterRequest> subst
+    Self::Context => Context<Self>
+@@ SnapshotWriterActor::handle@Handler<SnapshotWriterRequest> spec
+    requires old(self).ready()
+    // C01 (message level, A-WAIT): a Record message appends exactly that record's frame; Flush changes nothing in the image
+    ensures
+        final(self).inner_writer is Some ==> final(self).ready() && final(self).image() == (match msg {
+            SnapshotWriterRequest::Record(record) => old(self).image() + pb_frame(item_msg(record)),
+            SnapshotWriterRequest::Flush => old(self).image(),
+        }),
+        final(self).inner_writer is None ==> old(self).inner_writer.unwrap().file.io_faulty(),
